@@ -1,22 +1,26 @@
 #!/bin/bash
-# re-base every seeded patch from the pinned commit onto /repo HEAD and re-confirm it
+# re-base every seeded patch onto /repo HEAD and re-confirm it (tests pass, demo fails)
 out=/tmp/rebase_results.txt; : > $out
 head=$(git -C /repo rev-parse HEAD)
 for d in /verif/seeded/C*; do
-  id=$(basename $d); wt=/tmp/mut/rb-$id; rm -rf $wt
-  src=$d/patch.orig.diff; [ -f $src ] || cp $d/patch.diff $src
-  git -C /repo worktree add --detach $wt 4c743fa >/dev/null 2>&1
+  id=$(basename $d); wt=/tmp/mut/rb-$id; rm -rf $wt; git -C /repo worktree prune
+  [ -f $d/patch.orig.diff ] || cp $d/patch.diff $d/patch.orig.diff
+  git -C /repo worktree add --detach $wt $head >/dev/null 2>&1
   cd $wt
-  if ! git apply $src 2>/dev/null; then echo "$id ORIG-APPLY-FAIL" >> $out; cd /; git -C /repo worktree remove --force $wt; continue; fi
-  git -c user.name=x -c user.email=x@x commit -qam "mutant $id"
-  m=$(git rev-parse HEAD)
-  git checkout -q --detach $head
-  if git -c user.name=x -c user.email=x@x cherry-pick -n $m >/dev/null 2>&1; then
-     git diff HEAD -- metomi > $d/patch.diff
+  ok=0
+  if git apply $d/patch.diff 2>/dev/null; then ok=1
+  elif git apply --3way $d/patch.diff >/dev/null 2>&1 && ! git diff --name-only --diff-filter=U | grep -q .; then ok=1
+  else
+     git checkout -q -f $head; git clean -qfd
+     git checkout -q --detach 4c743fa && git apply $d/patch.orig.diff 2>/dev/null && git -c user.name=x -c user.email=x@x commit -qam m && m=$(git rev-parse HEAD) && git checkout -q --detach $head && git -c user.name=x -c user.email=x@x cherry-pick -n $m >/dev/null 2>&1 && ok=1
+  fi
+  if [ $ok = 1 ]; then
+     git reset -q; git diff $head -- metomi > /tmp/new_patch_$id.diff
      /venv/bin/python $d/demo.py >/dev/null 2>&1; mut=$?
      t=$(/venv/bin/python -m pytest -q -p no:cacheprovider --timeout=900 2>&1 | tail -1)
      git checkout -q -f $head; git clean -qfd
      /venv/bin/python $d/demo.py >/dev/null 2>&1; clean=$?
+     if [ -s /tmp/new_patch_$id.diff ]; then cp /tmp/new_patch_$id.diff $d/patch.diff; fi
      echo "$id clean_exit=$clean mutant_exit=$mut tests=[$t]" >> $out
   else
      echo "$id CONFLICT" >> $out
